@@ -35,15 +35,29 @@ HEADER_ADDS = [("xx", 3, None), ("xx", "a", "Z"), ("xx", "a", None), ("xx", 1.5,
                ("@line", "H\tqa:Z:ok\tqb:Z:caf\u00e9", 0), ("@line", "H\tqc:i:1\tqd:Z:a\x01b", 0),
                ("@line", "H\tqe:Z:ok\tqf:i:x1", 0), ("@line", "H\tqg:Z:ok\tTS:i:77", 1),
                ("@line", "H\tqh:Z:ok\txx:Z:a", 1), ("@line", "H\tqi:Z:ok\tqj:J:{bad", 0),
-               ("@line", "H\tqk:Z:ok\tql:H:0a", 0)]
+               ("@line", "H\tqk:Z:ok\tql:H:0a", 0),
+               # the VN tag through the other two ways of the header object
+               ("@vn", "2.0", "attr"), ("@vn", "1.0", "attr"), ("@vn", "2.0", "set"), ("@vn", "1.0", "set"), ("@vn", "3.0", "attr")]
+VN_ADDS = [i for i, a in enumerate(HEADER_ADDS) if a[0] in ("@vn", "VN")]
+
+
+QUEUED_START = [["H\txx:i:1", "L\ta\t+\tb\t-\t*"], ["P\tp\ta+,b-\t*"], ["X\tcustom\trecord"], ["H\tzz:Z:a", "C\ta\t+\tb\t+\t0\t*"],
+                ["# only a comment"], ["X\tcustom", "L\ta\t+\tb\t-\t*"]]
 
 
 def cases(rng, tier, shard, nshards):
     while True:
         if rng.random() < 0.06:
             # values added to the header through its own API (multi-valued tags)
-            yield {"k": "header-add", "start": rng.choice(HEADER_START), "vlevel": rng.randrange(4),
-                   "adds": [rng.randrange(len(HEADER_ADDS)) for _ in range(rng.randint(1, 5))]}
+            c = {"k": "header-add", "start": rng.choice(HEADER_START), "vlevel": rng.randrange(4),
+                 "adds": [rng.randrange(len(HEADER_ADDS)) for _ in range(rng.randint(1, 5))]}
+            if rng.random() < 0.3:
+                # a Gfa whose version is not known yet, with lines kept aside: the version is then given
+                # through the header object (refused when the lines kept aside contradict it)
+                c["start"] = rng.choice(QUEUED_START)
+                c["queued"] = True
+                c["adds"] = [rng.choice(VN_ADDS) for _ in range(rng.randint(1, 3))] + c["adds"][:2]
+            yield c
             continue
         if rng.random() < 0.25:
             seq = []
@@ -151,7 +165,16 @@ def run_header_add(case, ctx):
     import gfapy
     from ..mon import obs as O
     from ..mon.client import call
-    r = call(ctx, "Gfa(list)", gfapy.Gfa, list(case["start"]), vlevel=case["vlevel"])
+    if case.get("queued"):
+        def build():
+            g_ = gfapy.Gfa(vlevel=case["vlevel"])
+            for l_ in case["start"]:
+                g_.add_line(l_)
+            return g_
+        r = call(ctx, "Gfa(); add_line ... (version unknown)", build)
+        ctx.count("header_adds_on_unknown_version")
+    else:
+        r = call(ctx, "Gfa(list)", gfapy.Gfa, list(case["start"]), vlevel=case["vlevel"])
     if not r.ok:
         return
     g = r.value
@@ -159,7 +182,14 @@ def run_header_add(case, ctx):
     for i in case["adds"]:
         tag, value, dt = HEADER_ADDS[i]
         before = O.obs(g)
-        if tag == "@line":
+        if tag == "@vn":
+            def assign():
+                if dt == "attr":
+                    g.header.VN = value
+                else:
+                    g.header.set("VN", value)
+            rr = call(ctx, "header VN (%s)" % dt, assign)
+        elif tag == "@line":
             lo = call(ctx, "Line(str)", gfapy.Line, value, vlevel=dt)
             if not lo.ok:
                 continue
